@@ -9,8 +9,10 @@ import (
 	"github.com/csgura/fp"
 	"github.com/csgura/fp/as"
 	"github.com/csgura/fp/hash"
+	"github.com/csgura/fp/hlist"
 	"github.com/csgura/fp/immutable"
 	"github.com/csgura/fp/iterator"
+	"github.com/csgura/fp/lazy"
 	"github.com/csgura/fp/list"
 	"github.com/csgura/fp/seq"
 	"verif/harness/sim"
@@ -46,9 +48,14 @@ type fnHasher struct {
 	// canon != nil: keys are equivalent (Eqv) when their canonical representatives are equal - an equivalence
 	// coarser than ==, as with case-insensitive strings; Hash must then depend on the representative only
 	canon func(int) int
+	// eqv != nil: the library's own derived equality (hashers built with package hash's combinators)
+	eqv func(a, b int) bool
 }
 
 func (h fnHasher) Eqv(a, b int) bool {
+	if h.eqv != nil {
+		return h.eqv(a, b)
+	}
 	if h.canon != nil {
 		return h.canon(a) == h.canon(b)
 	}
@@ -57,7 +64,50 @@ func (h fnHasher) Eqv(a, b int) bool {
 func (h fnHasher) Hash(a int) uint32 { return h.f(a) }
 
 func c03Hasher(r *sim.Run) fp.Hashable[int] {
-	switch r.Choose(11, "hasher") {
+	switch r.Choose(12, "hasher") {
+	case 11:
+		// hashers derived with the combinators of package hash over an injective image of the key (so Eqv is still ==,
+		// but both Hash and Eqv are the library's own derived instances, with their natural collisions)
+		r.Fault("hasher:derived-instance")
+		num := hash.Number[int]()
+		var d fp.Hashable[int]
+		var name string
+		switch r.Choose(7, "derived") {
+		case 0:
+			d, name = hash.ContraMap(hash.Seq(num), func(k int) fp.Seq[int] { return fp.Seq[int]{k % 7, k / 7} }), "ContraMap(hash.Seq, k -> [k%7, k/7])"
+		case 1:
+			d, name = hash.ContraMap(hash.Slice(num), func(k int) []int { return []int{k / 31, k % 31} }), "ContraMap(hash.Slice, k -> [k/31, k%31])"
+		case 2:
+			d, name = hash.ContraMap(hash.Option(num), func(k int) fp.Option[int] {
+				if k == 0 {
+					return fp.None[int]()
+				}
+				return fp.Some(k)
+			}), "ContraMap(hash.Option, 0 -> None, k -> Some(k))"
+		case 3:
+			d, name = hash.ContraMap(hash.Tuple2(num, num), func(k int) fp.Tuple2[int, int] { return as.Tuple2(k%5, k/5) }), "ContraMap(hash.Tuple2, k -> (k%5, k/5))"
+		case 4:
+			d, name = hash.ContraMap(hash.Tuple1(num), func(k int) fp.Tuple1[int] { return as.Tuple1(k) }), "ContraMap(hash.Tuple1)"
+		case 5:
+			r.MuteMemo = true // hash.Ptr reaches a lazy.Eval on every Hash and Eqv
+			cells := map[int]*int{}
+			d, name = hash.ContraMap(hash.Ptr(lazy.Done(num)), func(k int) *int {
+				if k == 0 {
+					return nil
+				}
+				if p, ok := cells[k]; ok && k%2 == 0 {
+					return p // even keys: always the same pointer; odd keys: a fresh pointer to an equal number each time
+				}
+				v := k
+				cells[k] = &v
+				return &v
+			}), "ContraMap(hash.Ptr, 0 -> nil, k -> &k)"
+		default:
+			d, name = hash.ContraMap(hash.HCons(num, hash.HCons(num, hash.HNil)), func(k int) hlist.Cons[int, hlist.Cons[int, hlist.Nil]] {
+				return hlist.Concat(k%3, hlist.Concat(k/3, hlist.Empty()))
+			}), "ContraMap(hash.HCons, k -> k%3 :: k/3 :: HNil)"
+		}
+		return fnHasher{name: name, f: d.Hash, eqv: d.Eqv}
 	case 9, 10:
 		// Eqv coarser than ==: k and k+e are the same key. The reference is keyed by the representative k%e; which of
 		// the equivalent keys the map hands back from Iterator/Keys is not specified and is compared modulo Eqv.
